@@ -173,12 +173,15 @@ inductive Prime where
   | called (e : Res EtagObs)        -- sync `etag()` was called (`initial_load=False`)
 deriving DecidableEq, Repr, Inhabited
 
+/-- the primed tag: the sync `etag()` result if it is a str; None otherwise (also on an exception) -/
+def Prime.tag : Prime → Option Tag
+  | .called (.ok (.tag t)) => some t
+  | _ => none
+
 /-- `HotReloader.__init__`: prime `_last_etag` with a sync `etag()` result if it is a str, else None;
     an exception also gives None -/
 def init (cfg : Cfg) (p : Prime) (policy0 : Doc) : RState :=
-  { lastEtag := (match p with
-                 | .called (.ok (.tag t)) => some t
-                 | _ => none),
+  { lastEtag := p.tag,
     suppressUntil := 0, backoff := cfg.backoffMin, lastErrorSet := false,
     enginePolicy := policy0, cacheEpoch := 0, loads := 0,
     etagCalls := (match p with | .called _ => 1 | .skipped => 0) }
@@ -283,19 +286,26 @@ inductive CEvent where
 
 def upd (ts : Nat → Thread) (i : Nat) (t : Thread) : Nat → Thread := fun j => if j = i then t else ts j
 
+/-- a thread slot can begin a new check when it is idle or its previous check has finished -/
+def canSpawn : Pc → Bool
+  | .idle => true
+  | .done _ => true
+  | _ => false
+
+/-- the document a block adds to the ghost list: the one a successful `load()` just returned -/
+def newlyLoaded (pc : Pc) (o : Obs) : List Doc :=
+  match pc, o with
+  | .load _, .load (.ok d) => [d]
+  | _, _ => []
+
 def cstep (cfg : Cfg) (c : Conc) : CEvent → Conc
   | .spawn i force now jit =>
-    (match (c.ts i).pc with
-     | .idle | .done _ =>
-       { c with ts := upd c.ts i { force, now, jit, pc := .start, touched := false } }
-     | _ => c)
+    if canSpawn (c.ts i).pc then
+      { c with ts := upd c.ts i { force, now, jit, pc := .start, touched := false } }
+    else c
   | .step i o =>
     let r := stepThread cfg (c.ts i) o c.rs
-    let ld : List Doc :=
-      (match (c.ts i).pc, o with
-       | .load _, .load (.ok d) => [d]
-       | _, _ => [])
-    { rs := r.2, ts := upd c.ts i r.1, loaded := c.loaded ++ ld }
+    { rs := r.2, ts := upd c.ts i r.1, loaded := c.loaded ++ newlyLoaded (c.ts i).pc o }
 
 def crun (cfg : Cfg) : Conc → List CEvent → Conc
   | c, [] => c
